@@ -102,6 +102,20 @@ CLAIMED["C05"] = dict(
          "identity is an id carried in the element; pointer maps must not store NULL.",
     ref="6 C05")
 
+CLAIMED["C03"] = dict(
+    technique="Lean 4 theorems over a header+byte-storage model with bounds-checked memmove/memcpy (C index arithmetic) + script correspondence over element sizes and storage kinds",
+    text="Theorems for every element size, capacity and content: reserve keeps the element bytes and the invariant "
+         "(length <= capacity, |storage| = capacity*es) on heap/arena/stack storage; push, pop, append, insert, erase, copy, "
+         "slice (in place and from a source), map (in place and from a source), filter (in place loop and from a source) "
+         "never leave the storage (every checked primitive succeeds), keep the invariant and yield exactly the sequence "
+         "operation's bytes; folds are the list folds; heap traffic replays with every block freed exactly once after delete; "
+         "a stack array with a fallback allocator moves to the allocator when it outgrows the stack.",
+    note="Modelled, not verified: gp_mem_alloc/realloc/dealloc (C01), the in-place filter is modelled as one copy-down loop "
+         "(the C code skips the self-copies of the leading matches), in-place map writes the mapped bytes in one step; "
+         "callbacks are pure functions of the element bytes. Correspondence: scripts over es in {1,2,3,4,5,7,8,12,16,24,33,64} "
+         "x {heap, tight arena, default arena with live neighbour, scope, stack+allocator, stack without allocator}.",
+    ref="6 C03")
+
 PENDING = {}
 
 def main():
